@@ -240,5 +240,24 @@ def run(E: Engine, rep: Report, tier: str) -> dict:
                 pair = m
         ok = pair is not None and elem_of(pair["Q_b"], blocks)
     rep.check(ok, "FLOW", "modulate|every-block-mask-extended-by-fall-time", "for each EOM block: mask[ti:end] and mask_ext[end:end+fall] are set in the same loop", "ChannelSamples.modulate no longer extends the EOM mask of *every* block by the EOM fall time (the extension must be written inside the loop over eom_blocks, from that block's end): the tail of every non-final block is cut off", E.where(mod))
+    # the slot before an EOM block is that block's start buffer when it ends where the block starts AND ends at that
+    # block's off-detuning: the interval start, the block and the buffer entry that is written carry the SAME index
+    gs15 = E.method(CHS, "get_samples")
+    Sg15 = S(E, gs15, inline=False)
+    sb_obj = [l.value for l in Sg15.logged("assign") if l.target == ("name", "eom_start_buffers")]
+    n_sb = 0
+    for l in Sg15.logged("store"):
+        if l.target is None or l.target[0] != "idx" or not sb_obj or unobj(l.target[1]) != unobj(sb_obj[0]) or not l.loops:
+            continue
+        K = l.target[2]
+        idxs = [t for x in sym.conj_of(l.cond) for t in sym.subterms(x) if t[0] == "idx" and mentions(t[1], "eom_blocks") and t[2][0] != "slice"]
+        if not idxs:
+            continue
+        n_sb += 1
+        wrong = [t for t in idxs if t[2] != K]
+        rep.check(not wrong, "FLOW", "_ChannelSchedule.get_samples|start-buffer-of-the-block-it-precedes", "eom_intervals_ti[k], eom_blocks[k].detuning_off and eom_start_buffers[k] use one index",
+                  f"the start buffer written to entry [{sh(K, 60)}] is recognised by `{sh(wrong[0], 100) if wrong else ''}`, a different block: with two EOM blocks of different off-detunings the buffer before the first block is compared with the last block's detuning_off and is not marked, so the modulated output ramps with the channel bandwidth inside the configured buffer", E.where(gs15, l.node))
+    if n_sb == 0:
+        rep.excepted("FLOW", "_ChannelSchedule.get_samples|start-buffer-of-the-block-it-precedes", "the write of eom_start_buffers under a test on eom_blocks was not recognised: not decided", E.where(gs15))
     rep.floor("FLOW", 22)
     return {}
